@@ -81,9 +81,17 @@ class Runner(object):
                 break
         return self.results
 
-    # each run_* returns (Outcome, violations)
+    # each step is split into prep_<op> (device set-up + call arguments), the call itself, and judge_<op> (result oracle),
+    # so that the same oracles serve plain calls, scheduled threads and asyncio tasks
     def run_step(self, i, step):
-        return getattr(self, "do_" + step["op"])(i, step)
+        name, args, kw, ctx = getattr(self, "prep_" + step["op"])(i, step)
+        out = self.sess.call(name, *args, **kw)
+        return out, getattr(self, "judge_" + step["op"])(step, ctx, out)
+
+    async def arun_step(self, i, step):
+        name, args, kw, ctx = getattr(self, "prep_" + step["op"])(i, step)
+        out = await self.sess.acall(name, *args, **kw)
+        return out, getattr(self, "judge_" + step["op"])(step, ctx, out)
 
     def _v(self, prop, mech, detail):
         return {"property": prop, "mechanism": mech, "detail": detail}
@@ -91,92 +99,107 @@ class Runner(object):
     def _raised(self, prop, step, out):
         return [self._v(prop, "raised:%s" % (out.exc_name() or out.kind), "%s raised %s" % (step["op"], out.brief(200)))]
 
-    def _stream_for(self, dest, n_before):
-        sts = [st for st in self.sim.all_streams[n_before:] if st.dest == dest]
-        return sts[0] if len(sts) == 1 else None
-
-    def do_shell(self, i, step):
+    # ---- shell / exec_out / streaming_shell
+    def prep_shell(self, i, step):
         op = step["op"]
-        rng = gen.rng_for("step", step["seed"])
-        data = gen.content(step["cls"], rng)
-        chunks = gen.partition(data, rng)
+        if step.get("chunks") is not None:
+            chunks = [bytes.fromhex(c) for c in step["chunks"]]
+        else:
+            rng = gen.rng_for("step", step["seed"])
+            data = gen.content(step["cls"], rng)
+            chunks = gen.partition(data, rng)
         prefix = {"shell": b"shell:", "streaming_shell": b"shell:", "exec_out": b"exec:"}[op]
-        dest = prefix + step["cmd"].encode()
-        self.sim.scripts[dest] = list(chunks)
-        nb = len(self.sim.all_streams)
+        self.sim.scripts[prefix + step["cmd"].encode()] = list(chunks)
         kw = {"decode": step["decode"]}
         if step.get("take") is not None:
             kw["take"] = step["take"]
-        out = self.sess.call(op, step["cmd"], **kw)
+        return op, (step["cmd"],), kw, chunks
+
+    def judge_shell(self, step, chunks, out):
+        op = step["op"]
         if not out.ok:
-            return out, self._raised("C01", step, out)
+            return self._raised("C01", step, out)
         if op == "streaming_shell":
             exp = [c.decode("utf8", "backslashreplace") for c in chunks] if step["decode"] else list(chunks)
             if step.get("take") is not None:
-                exp = exp[:step["take"]] if step["take"] > 0 else exp[:1]
                 # take=0 still consumes the first item before breaking (harness loop) -- unless there is none
+                exp = exp[:step["take"]] if step["take"] > 0 else exp[:1]
         else:
             whole = b"".join(chunks)
             exp = whole.decode("utf8", "backslashreplace") if step["decode"] else whole
-        v = []
         if out.value != exp:
-            v.append(self._v("C01", "wrong-output", "%s returned %s, device wrote %d chunks %r" % (op, out.brief(100), len(chunks), [bytes(c[:20]) for c in chunks[:5]])))
-        return out, v
+            return [self._v("C01", "wrong-output", "%s(%s) returned %s, device wrote %d chunks %r" % (op, step["cmd"], out.brief(100), len(chunks), [bytes(c[:20]) for c in chunks[:5]]))]
+        return []
 
-    do_exec_out = do_shell
-    do_streaming_shell = do_shell
+    prep_exec_out = prep_shell
+    prep_streaming_shell = prep_shell
+    judge_exec_out = judge_shell
+    judge_streaming_shell = judge_shell
 
-    def do_root(self, i, step):
+    # ---- root / reboot
+    def prep_root(self, i, step):
         rng = gen.rng_for("step", step["seed"])
         data = gen.content(step["cls"], rng)
         self.sim.scripts[b"root:"] = gen.partition(data, rng)
-        out = self.sess.call("root")
-        if not out.ok:
-            return out, self._raised("C01", step, out)
-        return out, ([] if out.value is None else [self._v("C01", "wrong-output", "root returned %r" % (out.value,))])
+        return "root", (), {}, None
 
-    def do_reboot(self, i, step):
-        out = self.sess.call("reboot", fastboot=step.get("fastboot", False))
+    def judge_root(self, step, ctx, out):
         if not out.ok:
-            return out, self._raised("C04", step, out)
-        return out, []
+            return self._raised("C01", step, out)
+        return [] if out.value is None else [self._v("C01", "wrong-output", "root returned %r" % (out.value,))]
 
-    def do_list(self, i, step):
-        rng = gen.rng_for("step", step["seed"])
-        entries = []
-        for k in range(step["n"]):
-            nlen = rng.choice([1, 2, 8, 30, 255])
-            name = bytes(rng.choice(b"abcXYZ.-_ /\xc3\xa9\xff\x80\x01") for _ in range(nlen))
-            entries.append((rng.choice([0, 1, 0o40755, 0x80000000, wire.M32]), rng.choice([0, 5, 0x7FFFFFFF, 0x80000000, wire.M32]), rng.getrandbits(32), name))
+    def prep_reboot(self, i, step):
+        return "reboot", (), {"fastboot": step.get("fastboot", False)}, None
+
+    def judge_reboot(self, step, ctx, out):
+        return [] if out.ok else self._raised("C04", step, out)
+
+    # ---- list / stat
+    def prep_list(self, i, step):
+        if step.get("entries") is not None:
+            entries = [(e[0], e[1], e[2], bytes.fromhex(e[3])) for e in step["entries"]]
+        else:
+            rng = gen.rng_for("step", step["seed"])
+            entries = []
+            for k in range(step["n"]):
+                nlen = rng.choice([1, 2, 8, 30, 255])
+                name = bytes(rng.choice(b"abcXYZ.-_ /\xc3\xa9\xff\x80\x01") for _ in range(nlen))
+                entries.append((rng.choice([0, 1, 0o40755, 0x80000000, wire.M32]), rng.choice([0, 5, 0x7FFFFFFF, 0x80000000, wire.M32]), rng.getrandbits(32), name))
         plan = self.sim.sync_plan
         plan.lists[step["path"].encode()] = entries
-        plan.split_mode = step.get("split", "whole")
-        out = self.sess.call("list", step["path"])
-        plan.split_mode = "whole"
-        if not out.ok:
-            return out, self._raised("C09", step, out)
-        got = [(f.mode, f.size, f.mtime, bytes(f.filename)) for f in out.value]
-        v = []
-        if got != entries:
-            v.append(self._v("C09", "wrong-list", "list returned %d entries %r..., device sent %d %r..." % (len(got), got[:2], len(entries), entries[:2])))
-        return out, v
+        if step.get("split"):
+            plan.split_mode = step["split"]
+        return "list", (step["path"],), {}, entries
 
-    def do_stat(self, i, step):
-        rng = gen.rng_for("step", step["seed"])
-        triple = tuple(rng.choice([0, 1, 0o100644, 0x7FFFFFFF, 0x80000000, wire.M32, rng.getrandbits(32)]) for _ in range(3))
+    def judge_list(self, step, entries, out):
+        if not out.ok:
+            return self._raised("C09", step, out)
+        got = [(f.mode, f.size, f.mtime, bytes(f.filename)) for f in out.value]
+        if got != entries:
+            return [self._v("C09", "wrong-list", "list(%s) returned %d entries %r..., device sent %d %r..." % (step["path"], len(got), got[:2], len(entries), entries[:2]))]
+        return []
+
+    def prep_stat(self, i, step):
+        if step.get("triple") is not None:
+            triple = tuple(step["triple"])
+        else:
+            rng = gen.rng_for("step", step["seed"])
+            triple = tuple(rng.choice([0, 1, 0o100644, 0x7FFFFFFF, 0x80000000, wire.M32, rng.getrandbits(32)]) for _ in range(3))
         plan = self.sim.sync_plan
         plan.stats[step["path"].encode()] = triple
-        plan.split_mode = step.get("split", "whole")
-        out = self.sess.call("stat", step["path"])
-        plan.split_mode = "whole"
-        if not out.ok:
-            return out, self._raised("C09", step, out)
-        v = []
-        if tuple(out.value) != triple:
-            v.append(self._v("C09", "wrong-stat", "stat returned %r, device sent %r" % (out.value, triple)))
-        return out, v
+        if step.get("split"):
+            plan.split_mode = step["split"]
+        return "stat", (step["path"],), {}, triple
 
-    def do_pull(self, i, step):
+    def judge_stat(self, step, triple, out):
+        if not out.ok:
+            return self._raised("C09", step, out)
+        if tuple(out.value) != triple:
+            return [self._v("C09", "wrong-stat", "stat(%s) returned %r, device sent %r" % (step["path"], out.value, triple))]
+        return []
+
+    # ---- pull
+    def prep_pull(self, i, step):
         rng = gen.rng_for("step", step["seed"])
         content = blob(step["seed"], step["size"])
         path = step["path"].encode()
@@ -185,30 +208,33 @@ class Runner(object):
         plan.stats[path] = (0o100644, len(content), 1500000000)
         rec = step.get("rec", "64k")
         plan.recv_record_sizes[path] = {"64k": [65536], "one": [1] if len(content) <= 600 else [997], "random": [rng.randint(1, 65536) for _ in range(7)], "alt": [1, 65536]}[rec]
-        plan.split_mode = step.get("split", "whole")
+        if step.get("split"):
+            plan.split_mode = step["split"]
         cb_calls = []
         cb = make_callback(self.sess.impl, step.get("cb"), cb_calls)
         if step.get("dest") == "path":
             dest = os.path.join(self.tmpdir(), "pulled%d" % i)
         else:
             dest = io.BytesIO()
-        out = self.sess.call("pull", step["path"], dest, progress_callback=cb)
-        plan.split_mode = "whole"
+        return "pull", (step["path"], dest), {"progress_callback": cb}, (content, dest, cb, cb_calls)
+
+    def judge_pull(self, step, ctx, out):
+        content, dest, cb, cb_calls = ctx
         if not out.ok:
-            return out, self._raised("C08", step, out)
+            return self._raised("C08", step, out)
         got = dest.getvalue() if isinstance(dest, io.BytesIO) else open(dest, "rb").read()
         v = []
         if got != content:
-            v.append(self._v("C08", "wrong-bytes", "pull wrote %d bytes, device file has %d (first difference at %s)" % (len(got), len(content), _first_diff(got, content))))
+            v.append(self._v("C08", "wrong-bytes", "pull(%s) wrote %d bytes, device file has %d (first difference at %s)" % (step["path"], len(got), len(content), _first_diff(got, content))))
         if cb is not None:
             if sum(c[1] for c in cb_calls) != len(content) or any(c[0] != step["path"] or c[2] != len(content) for c in cb_calls):
                 v.append(self._v("C08", "callback", "callback saw %r for a %d-byte file" % (cb_calls[:5], len(content))))
-        return out, v
+        return v
 
-    def do_push(self, i, step):
+    # ---- push
+    def prep_push(self, i, step):
         content = blob(step["seed"], step["size"])
         plan = self.sim.sync_plan
-        n_before = len(plan.pushed)
         cb_calls = []
         cb = make_callback(self.sess.impl, step.get("cb"), cb_calls)
         if step.get("src") == "file":
@@ -218,18 +244,31 @@ class Runner(object):
         else:
             src = io.BytesIO(content)
         t0 = self.sess.clock.now()
-        out = self.sess.call("push", src, step["path"], st_mode=step["mode"], mtime=step["mtime"], progress_callback=cb)
+        return "push", (src, step["path"]), {"st_mode": step["mode"], "mtime": step["mtime"], "progress_callback": cb}, (content, cb, cb_calls, t0, len(plan.pushed))
+
+    def judge_push(self, step, ctx, out):
+        content, cb, cb_calls, t0, n_before = ctx
+        plan = self.sim.sync_plan
         t1 = self.sess.clock.now()
         if not out.ok:
             mech = "raised:%s" % (out.exc_name() or out.kind)
             if cb is not None and step.get("src") != "file" and out.exc_name() in ("UnsupportedOperation", "AttributeError"):
                 mech = "bytesio-callback-fileno"
-            return out, [self._v("C07", mech, "push raised %s" % out.brief(200))]
-        v = check_pushed(plan.pushed[n_before:], [(step["path"].encode(), content)], step["mode"], step["mtime"], (t0, t1), self._v)
+            return [self._v("C07", mech, "push raised %s" % out.brief(200))]
+        # transfers that started after this call began (other actors' concurrent pushes use other device paths)
+        mine = [p for p in plan.pushed[n_before:] if p["path"] == step["path"].encode() or len(plan.pushed) - n_before == 1]
+        v = check_pushed(mine, [(step["path"].encode(), content)], step["mode"], step["mtime"], (t0, t1), self._v)
         if cb is not None:
             if sum(c[1] for c in cb_calls) != len(content) or any(c[0] != step["path"] or c[2] != len(content) for c in cb_calls):
                 v.append(self._v("C07", "callback", "callback saw %r for a %d-byte source" % (cb_calls[:5], len(content))))
-        return out, v
+        return v
+
+    # compatibility with the checks written against the first version of this class
+    def do_push(self, i, step):
+        return self.run_step(i, step)
+
+    def do_pull(self, i, step):
+        return self.run_step(i, step)
 
 
 def make_callback(impl, kind, calls):
